@@ -1,6 +1,6 @@
 """C18 — the builder interface constructs exactly the valid structs (template clauses)."""
 import re
-from lib import (norm_arm, walk, nodes, ends, src, psrc, outcome, contains_node, pat_top_variants, short, calls_in, block_last,
+from lib import (must_pass, arms_by_variant, norm_arm, walk, nodes, ends, src, psrc, outcome, contains_node, pat_top_variants, short, calls_in, block_last,
                  strip_refs, guards, gtext, top_stmts, templates_in)
 import emit
 import tmplparse as tp
@@ -99,7 +99,14 @@ def run(facts, rep, tier):
         m = [pd[0]["args"][0]] if pd and pd[0]["args"][0].get("k") == "match" else []
         if rep.floor("C18.T1", "match on the DefaultFunction", len(m), 1):
             got = {}
+            byv = arms_by_variant(m[0])
+            plain = all(len(v) == 1 and not v[0].get("guard") for v in byv.values()) and set(byv) == {"Default", "Custom", "None"}
+            rep.ob("C18.T1", "classification-is-total-and-unguarded", plain,
+                   "one unguarded arm for each of None / Default / Custom" if plain else
+                   "the translation of the classification has guarded or extra arms (%s): the builder's initial value can differ from the serde attribute chosen for the same property" % ", ".join("%s%s" % (psrc(a["pat"]), " if " + src(a["guard"]) if a.get("guard") else "") for a in m[0]["arms"]), m[0].get("sp"))
             for a in m[0]["arms"]:
+                if a.get("guard"):
+                    continue
                 name = pat_top_variants(a["pat"])[0].split("::")[-1]
                 tmpl = [(facts.template_at(x["sp"]) or {}).get("tt", []) for x, _ in walk(a["body"]) if x.get("k") == "macro" and x["name"] == "quote"]
                 fm = [x for x, _ in walk(a["body"]) if x.get("k") == "macro" and x["name"] == "format"]
@@ -126,7 +133,12 @@ def run(facts, rep, tier):
     if rep.floor("C18.T1", "builder mapping of the classification", len(pdm), 1):
         mm = [n for n, _ in nodes(pdm[0]["init"], "match")][0]
         got = {}
+        byv = arms_by_variant(mm)
+        plain = all(len(v) == 1 and not v[0].get("guard") for v in byv.values()) and set(byv) == {"Default", "Custom", "None"}
+        rep.ob("C18.T1", "builder-mapping-is-total-and-unguarded", plain, "one unguarded arm for each of None / Default / Custom" if plain else "guarded or extra arms in the builder mapping", mm.get("sp"))
         for a in mm["arms"]:
+            if a.get("guard"):
+                continue
             name = pat_top_variants(a["pat"])[0].split("::")[-1]
             tmpl = [re.sub(r"#\w+", "#x", (facts.template_at(x["sp"]) or {}).get("text", "").replace(" ", "")) for x, _ in walk(a["body"]) if x.get("k") == "macro" and x["name"] == "quote"]
             got[name] = tmpl[0] if tmpl else ""
@@ -143,12 +155,23 @@ def run(facts, rep, tier):
             state = re.search(r"StructPropertyState::(\w+)", p).group(1)
             pushed = [(facts.template_at(x["sp"]) or {}).get("text", "").replace(" ", "") for x, _ in walk(a["body"]) if x.get("k") == "macro" and x["name"] == "quote"]
             res = src(block_last(a["body"]))
-            cell = re.sub(r"[^A-Za-z]", "", p.split(",", 1)[1])[:24]
+            cell = "|".join(v.split("::")[-1] for v in pat_top_variants(a["pat"]["pats"][1])) if a["pat"].get("k") == "tuple" and len(a["pat"].get("pats", [])) == 2 else re.sub(r"[^A-Za-z]", "", p.split(",", 1)[1])[:24]
+
+            def pushes_default(x, exact):
+                if x.get("k") != "mcall" or x["name"] != "push":
+                    return False
+                ts = [(facts.template_at(y["sp"]) or {}).get("text", "").replace(" ", "") for y, _ in walk(x) if y.get("k") == "macro" and y["name"] == "quote"]
+                return any((t == "default") if exact else t.startswith("default=#") for t in ts)
+            if a.get("guard"):
+                rep.ob("C18.T1", "selector-arm-unguarded:%s/%s" % (state, cell), False, "selector arm `%s` is guarded by `%s`" % (p[:60], src(a["guard"])), a.get("sp"))
             if state == "Optional":
-                ok = res == "DefaultFunction::Default" and "default" in pushed
+                ok = res == "DefaultFunction::Default" and must_pass(a["body"], lambda x: pushes_default(x, True))
+                if res == "DefaultFunction::Default" and not ok:
+                    rep.ob("C18.T1", "selector:%s/%s" % (state, cell), False, "selector arm %s answers DefaultFunction::Default (the builder starts at Ok(Default::default())) but `default` is not pushed on every path through the arm: serde requires the member on those paths" % p[:60], a.get("sp"))
+                    continue
                 why = "Optional => #[serde(default)] + DefaultFunction::Default"
             elif state == "Default":
-                ok = res.startswith("DefaultFunction::Custom(") and any(x.startswith("default=#") for x in pushed)
+                ok = res.startswith("DefaultFunction::Custom(") and must_pass(a["body"], lambda x: pushes_default(x, False))
                 why = "Default(v) => #[serde(default = \"fn\")] + DefaultFunction::Custom(fn)"
             else:
                 ok = res == "DefaultFunction::None" and not pushed
